@@ -18,6 +18,7 @@ FLAGS_c18 = -ldl
 FLAGS_c05 = -O2
 FLAGS_c04 = -Iharness/mpishim
 FLAGS_c07 = -Iharness/mpishim
+FLAGS_c08 = -Iharness/mpishim
 FLAGS_c19 = -Iharness/mpishim
 FLAGS_c12 = -Iharness/mpishim
 FLAGS_c20 = -Iharness/mpishim -fsanitize=address,undefined -fno-sanitize-recover=undefined -D_GLIBCXX_ASSERTIONS
